@@ -7,6 +7,8 @@
 //---------------------------------------------------------------------------//
 #include "StatusChecker.hh"
 
+#include <mutex>
+
 #include "corecel/data/AuxStateVec.hh"
 #include "corecel/data/Copier.hh"
 #include "corecel/sys/ActionRegistry.hh"
@@ -128,6 +130,15 @@ void StatusChecker::step(ActionId prev_action,
 void StatusChecker::begin_run_impl(CoreParams const& params)
 {
     auto const& reg = *params.action_reg();
+
+    // Streams may begin their runs concurrently (and while other streams are
+    // already stepping): build the shared data once, under a lock
+    static std::mutex initialize_mutex;
+    std::lock_guard<std::mutex> scoped_lock{initialize_mutex};
+    if (data_ && data_.host_ref().orders.size() == reg.num_actions())
+    {
+        return;
+    }
 
     HostVal<StatusCheckParamsData> host_val;
     auto build_orders = CollectionBuilder{&host_val.orders};
